@@ -21,7 +21,8 @@
 (***************************************************************************)
 EXTENDS TLC, Json, FiniteSets, Sequences, Naturals
 
-CONSTANTS BlockLists, AllowLists, AsIsC,
+CONSTANTS BlockLists, AllowLists,
+          AsIsC,        \* FALSE: the statement; TRUE: follow today's code (negative config)
           Configs,      \* set of [enabled, src]
           ForcedBeh,    \* behaviours of an http list in a forced refresh
           SchedBeh,     \* ... in a scheduled refresh
@@ -29,7 +30,7 @@ CONSTANTS BlockLists, AllowLists, AsIsC,
 
 Lists == BlockLists \cup AllowLists
 
-INSTANCE FilterRefreshCore WITH Lists <- Lists, Block <- BlockLists, AsIs <- AsIsC
+INSTANCE FilterRefreshCore WITH Lists <- Lists, Block <- BlockLists
 
 VARIABLES phase,   \* "boot" | "run"
           cfg, S
@@ -99,9 +100,10 @@ Behs(l, mode) ==
     IF cfg.src[l] = "file" THEN FileBeh
     ELSE IF mode = "forced" THEN ForcedBeh ELSE SchedBeh
 
-Emit(c, src, act, script, dst, rew) ==
+\* asis: the state today's code is known to reach instead of dst, or dst.
+Emit(c, src, act, script, dst, rew, failed, asis) ==
     PrintT(<<"@@V", ToJson([cfg |-> c, src |-> src, act |-> act, script |-> script,
-                            dst |-> dst, rew |-> rew])>>)
+                            dst |-> dst, rew |-> rew, failed |-> failed, asis |-> asis])>>)
 
 Init == /\ phase = "boot"
         /\ cfg = [enabled |-> [l \in Lists |-> TRUE], src |-> [l \in Lists |-> "http"]]
@@ -112,7 +114,7 @@ Boot == /\ phase = "boot"
              /\ cfg' = c
              /\ S' = S0
              /\ phase' = "run"
-             /\ Emit(c, S0, [a |-> "boot"], <<>>, S0, {})
+             /\ Emit(c, S0, [a |-> "boot"], <<>>, S0, {}, {}, S0)
 
 \* The statement, asserted on EVERY generated transition (an invariant over a
 \* history variable would multiply the state space by the number of scripts).
@@ -127,9 +129,9 @@ Refresh(act) ==
        \E script \in {s \in [sel -> UNION {Behs(l, act.mode) : l \in sel}] :
                           \A l \in sel : s[l] \in Behs(l, act.mode)} :
        \E r \in Results(cfg, S, act, script) :
-           /\ S' = r.st
-           /\ StepProps(sel, script, r.st, r.rew)
-           /\ Emit(cfg, S, act, script, r.st, r.rew)
+           /\ S' = (IF AsIsC THEN r.asis ELSE r.st)
+           /\ StepProps(sel, script, S', r.rew)
+           /\ Emit(cfg, S, act, script, S', r.rew, r.failed, r.asis)
     /\ UNCHANGED <<phase, cfg>>
 
 Forced == \E k \in {"block", "allow"} :
@@ -142,7 +144,7 @@ Restart == /\ phase = "run"
            \* A restart re-parses the stored files: nothing may change (this is
            \* where NormalFormIsFixedPoint matters to the running system).
            /\ Assert(AsIsC \/ S' = S, "RestartChangesNothing")
-           /\ Emit(cfg, S, [a |-> "restart"], <<>>, S', {})
+           /\ Emit(cfg, S, [a |-> "restart"], <<>>, S', {}, {}, S')
            /\ UNCHANGED <<phase, cfg>>
 
 Next == Boot \/ Forced \/ Sched \/ Restart
